@@ -257,6 +257,32 @@ func runReentrant(rc *RunCtx) {
 		simrt.Probe("reentry.file-pipeline")
 	}
 
+	// an event type with MANY pipelines whose second node calls back into the Broker (a nested Send of type
+	// tb): one Send of that type has all of them in flight at once, each inside Process, each needing its
+	// nested Send to finish -- however many there are
+	wide := tp.Choose(10, "wide-reentrant-type") == 0
+	if wide {
+		nw := 66 + tp.Choose(30, "nwide")
+		for i := 0; i < nw; i++ {
+			rid, fid, sid := el.NodeID(fmt.Sprintf("wr%d", i)), el.NodeID(fmt.Sprintf("wf%d", i)), el.NodeID(fmt.Sprintf("ws%d", i))
+			rn := mk(string(rid), el.NodeTypeFilter)
+			rn.inProc = true // nestKind 0: Send(tb)
+			broker.RegisterNode(rid, rn)
+			// (first nodes run one after the other on the dispatching goroutine; from the second node on every
+			// pipeline has a goroutine of its own, so that is where the calls overlap)
+			pid := el.NodeID(fmt.Sprintf("wx%d", i))
+			broker.RegisterNode(pid, mk(string(pid), el.NodeTypeFilter))
+			broker.RegisterNode(fid, mk(string(fid), el.NodeTypeFormatter))
+			broker.RegisterNode(sid, mk(string(sid), el.NodeTypeSink))
+			if err := broker.RegisterPipeline(el.Pipeline{PipelineID: el.PipelineID(fmt.Sprintf("wp%d", i)), EventType: "tw", NodeIDs: []el.NodeID{pid, rid, fid, sid}}); err != nil {
+				rc.Failf("C12.setup", "", "cannot register wide pipeline: %v", err)
+				return
+			}
+		}
+		desc.Reentry = append(desc.Reentry, fmt.Sprintf("event type tw has %d pipelines whose second node Sends from Process", nw))
+		simrt.Probe("reentry.wide-type")
+	}
+
 	type step struct {
 		kind string
 		id   string
@@ -330,6 +356,10 @@ func runReentrant(rc *RunCtx) {
 				pending++
 			case "send-plain":
 				broker.Send(ctx, "ta", &plainPayload{})
+				if wide {
+					lastOp = "send-wide"
+					broker.Send(ctx, "tw", "an event for the wide type")
+				}
 			case "sleep":
 				simrt.Sleep(st.d, "main:sleep")
 			case "rpan":
